@@ -1,5 +1,6 @@
 \* the code as it is, validator 2 is NOT a proposer (proposer(1,0) = 3); rounds 0, one height,
 \* one valid peer value, votes from peers 1 and 3; every crash point, up to 2 crashes (thorough: 5 inputs; measured 1,732,673 distinct states)
+\* Measured: 1,734,434 distinct states, depth 51.
 CONSTANTS
   NV = 4
   Power <- DrvUnitPower
